@@ -33,7 +33,7 @@ var c04RichPre = []model.Op{
 	{Op: "AddVertex", Graph: "g1", Elems: []*model.Elem{mv("c", "Q", M{"x": 2.0})}},
 	{Op: "AddEdge", Graph: "g1", Elems: []*model.Elem{me("e3", "r", "a", "c", nil)}},
 	{Op: "AddEdge", Graph: "g1", Elems: []*model.Elem{me("e4", "s", "c", "c", nil)}},
-	{Op: "AddVertex", Graph: "g2", Elems: []*model.Elem{mv("a", "P", nil)}},
+	{Op: "AddVertex", Graph: "g1b", Elems: []*model.Elem{mv("a", "P", nil)}},
 }
 
 // c04HubPre: a vertex with 300 incident edges (a mutation of it touches more than 1000 keys)
@@ -353,6 +353,22 @@ func c04CrashExec(w *fw.Worker, cc c04Crash) fw.Result {
 				res.Count("recreate_after_interrupted_delete", 1)
 			}
 		}
+		if len(bad) == 0 {
+			// the recovered store must keep working: elements written after the crash are indexed too
+			for _, gn := range db.ListGraphs() {
+				gq.ApplyOp(db, model.Op{Op: "AddVertex", Graph: gn, Elems: []*model.Elem{mv("probe1", "P", nil), mv("probe2", "Q", M{"x": 1.0})}})
+				gq.ApplyOp(db, model.Op{Op: "AddEdge", Graph: gn, Elems: []*model.Elem{me("probeE", "r", "probe1", "probe2", nil)}})
+			}
+			for gn, gs := range gq.SnapshotDB(db, c03U).Graphs {
+				for _, b := range gs.Invariants(gn) {
+					bad = append(bad, b+" (after writing probe elements to the recovered store)")
+				}
+				if gs.V["probe1"] == nil || gs.V["probe2"] == nil || gs.E["probeE"] == nil {
+					bad = append(bad, fmt.Sprintf("I3 graph %s, listed after the crash, does not hold the elements written to it afterwards", gn))
+				}
+			}
+			res.Count("post_crash_probes", 1)
+		}
 		db.Close()
 		if len(bad) > 0 {
 			inv := map[string]bool{}
@@ -490,7 +506,7 @@ func init() {
 	fw.Register(&fw.Property{
 		ID:    "C04",
 		Level: "fault_enumeration",
-		Rule:  "(a) clean restarts: 12 / 400 random C03 histories of length 4-12, one variant per restart position (Badger closed and reopened before that step) plus one with two restarts, and every ordered pair of calls of the alphabet as the first two calls after a reopen (quick: from the richest base state, a graph-level call or every seventh call first and an element write second; thorough: all pairs from all base states), full C03 observation set after every step against the abstract graph - in particular elements written after the reopen must be found through the label index; (b) crash points: every call of the C03 alphabet (39 calls incl. invalid ones) in 4 pre-states, plus deletions and a relabelling around a vertex with 300 incident edges (more than 1000 keys); the top-level KV writes W of the call are counted through a fault-injecting kvi.KVInterface decorator passed to kvgraph.NewKVGraph, then for EVERY k in 1..W the pre-state is rebuilt in a fresh directory, the call is interrupted before write k, the store is closed and reopened with a fresh kvgraph, and invariants I1 (adjacency entries <-> edge records, twins), I2 (label-index entries name existing elements with that label), I3 (every element is in its indexes), I4 (everything acknowledged before is intact; in-flight elements are in their old or new form) are checked. The crash points of each call are enumerated completely. Non-trivial = a history with a successful mutation / a call with at least one crash point.",
+		Rule:  "(a) clean restarts: 12 / 400 random C03 histories of length 4-12, one variant per restart position (Badger closed and reopened before that step) plus one with two restarts, and every ordered pair of calls of the alphabet as the first two calls after a reopen (quick: from the richest base state, a graph-level call or every seventh call first and an element write second; thorough: all pairs from all base states), full C03 observation set after every step against the abstract graph - in particular elements written after the reopen must be found through the label index; (b) crash points: every call of the C03 alphabet (39 calls incl. invalid ones) in 4 pre-states, plus deletions and a relabelling around a vertex with 300 incident edges (more than 1000 keys); the top-level KV writes W of the call are counted through a fault-injecting kvi.KVInterface decorator passed to kvgraph.NewKVGraph, then for EVERY k in 1..W the pre-state is rebuilt in a fresh directory, the call is interrupted before write k, the store is closed and reopened with a fresh kvgraph, and invariants I1 (adjacency entries <-> edge records, twins), I2 (label-index entries name existing elements with that label), I3 (every element is in its indexes), I4 (everything acknowledged before is intact; in-flight elements are in their old or new form) are checked; then two vertices and an edge are written to every graph the recovered store lists and I1-I3 are checked again. The crash points of each call are enumerated completely. Non-trivial = a history with a successful mutation / a call with at least one crash point.",
 		Assumptions: []string{
 			"each top-level KV write (Set, Delete, DeletePrefix, committing Update, committing BulkWrite) is atomic and durable once it returns, so stopping before write k and reopening reaches the same logical state as killing the process; the thorough tier validates this for Badger by really SIGKILLing a child between writes",
 			"a transaction that performs no write (kvindex's lazy recount) is not a crash point",
